@@ -24,7 +24,8 @@ def case(g, tier, ci):
     seqx = r.random() < 0.1
     ops, info = sg.sequence("s", npos=(1, 3), nch=(1, 3), SR=SR, N=(r.randint(2400, 2410) if seqx else None), raw_p=0.3,
                             kinds=("ramp", "sine") if not seqx else ("ramp",), flags_p=0.1, delays_p=0.4, filters_p=0.6,
-                            sub_p=0.0 if seqx else 0.2, waits=0.2, amp=1e6, seq_p=0.1)
+                            sub_p=0.0 if seqx else 0.2, waits=0.2, amp=1e6, seq_p=0.1,
+                            seq_sr_factor=r.choice([1, 1, 1, 1, 1, 1, 2, 10]))      # the filter runs at the sequence's own rate
     # delays: keep front/back padding 0 or >= 2 samples (use even sample counts)
     for o in ops:
         if o["op"] == "sq.setDelay":
